@@ -90,9 +90,10 @@ def _greg_years():
 @contract("pyoda_time.calendars._gregorian_year_month_day_calculator:_GregorianYearMonthDayCalculator._get_start_of_year_in_days", "C15", name="A5 (Gregorian part) discharged: the real Gregorian year starts are the stdlib's (every year 1..10000)")
 def _(c):
     c.arg("self", Int()).arg("year", Int())
-    c.ground = _greg_years
+    c.ground = lambda: _greg_years() + [{"self": _greg_years()[0]["self"], "year": -9998}]
     c.ground_chunks = 4
-    c.returns(lambda a, r: r == (_dt.date(a.year, 1, 1).toordinal() - DT.EPOCH if a.year <= 9999 else DT.MAX_ORD + 1))
+    # years 1..10000 against the stdlib; the first supported year against the first day number an Instant can hold
+    c.returns(lambda a, r: r == (-4371222 if a.year == -9998 else (_dt.date(a.year, 1, 1).toordinal() - DT.EPOCH if a.year <= 9999 else DT.MAX_ORD + 1)))
 
 
 @contract("pyoda_time.calendars._g_j_year_month_day_calculator:_GJYearMonthDayCalculator._get_months_in_year", "C15", "C17", name="A5 (Gregorian part) discharged: every Gregorian/ISO year has 12 months (years -9999..10000)")
